@@ -1,12 +1,16 @@
 use crate::{ErrorCode, Packet, Socket, Window};
 use std::thread::JoinHandle;
-use std::{
-    error::Error,
+#[cfg(feature = "verif")]
+use crate::verif::{
     fs::{self, File},
-    path::PathBuf,
-    thread,
-    time::{Duration, Instant},
+    time::Instant,
 };
+#[cfg(not(feature = "verif"))]
+use std::{
+    fs::{self, File},
+    time::Instant,
+};
+use std::{error::Error, path::PathBuf, thread, time::Duration};
 
 const MAX_RETRIES: u32 = 6;
 const TIMEOUT_BUFFER: Duration = Duration::from_secs(1);
@@ -148,6 +152,10 @@ impl<T: Socket + ?Sized> Worker<T> {
     fn send_file(self, file: File, check_response: bool) -> Result<(), Box<dyn Error>> {
         let mut block_number = 1;
         let mut window = Window::new(self.windowsize, self.blk_size, file);
+        #[cfg(feature = "verif")]
+        let mut block_number: u16 = crate::verif::start_block(block_number);
+        #[cfg(feature = "verif")]
+        window.verif_preload();
 
         if check_response {
             self.check_response()?;
@@ -197,6 +205,10 @@ impl<T: Socket + ?Sized> Worker<T> {
     fn receive_file(self, file: File) -> Result<(), Box<dyn Error>> {
         let mut block_number: u16 = 0;
         let mut window = Window::new(self.windowsize, self.blk_size, file);
+        #[cfg(feature = "verif")]
+        let mut block_number: u16 = crate::verif::start_block(block_number);
+        #[cfg(feature = "verif")]
+        window.verif_preload();
 
         loop {
             let mut size;
